@@ -13,7 +13,7 @@ SPEC = {
          "eval": "fun c => let '(s, d, v, l, f, o) := c in check_c10 s d v l 600 o", "per_shard": 40},
     ],
     "classes": {1: "complexity-spread-outer-type"},
-    "n_quick": 500, "n_thorough": 8000,
+    "n_quick": 500, "n_thorough": 2000,
     "level": "proof",
     "what_violation": "limit decision / computed depth or complexity differs from the reference measure of the inlined document",
     "rule": ("documents generated from generated (injected registry with complexity rules) and derive-built schemas, strict and "
